@@ -1043,6 +1043,55 @@ func c01Verbs(c *Ctx, p *Prog) {
 			})
 		}
 	}
+	// R5, second form: the line assembled by consecutive writes into the buffer (WriteString/WriteByte) in one block
+	bufF := p.Field("benchfmt", "Writer", "buf")
+	for _, fn := range p.Funcs("benchfmt") {
+		if fn.Signature.Recv() == nil || recvName(fn.Signature.Recv().Type()) != "Writer" || bufF == nil {
+			continue
+		}
+		for _, b := range fn.Blocks {
+			var sb strings.Builder
+			var first ssa.Instruction
+			for _, in := range b.Instrs {
+				call, ok := in.(*ssa.Call)
+				if !ok || len(call.Call.Args) != 2 {
+					continue
+				}
+				if f, _ := fieldOfAddr(call.Call.Args[0]); f != bufF {
+					continue
+				}
+				co := calleeObj(&call.Call)
+				if co == nil {
+					continue
+				}
+				if first == nil {
+					first = in
+				}
+				arg := call.Call.Args[1]
+				switch co.Name() {
+				case "WriteString":
+					if k, ok := constString(arg); ok {
+						sb.WriteString(k)
+					} else if f, _ := loadOfField(arg); f != nil {
+						sb.WriteString("%" + f.Name())
+					} else {
+						sb.WriteString("%?")
+					}
+				case "WriteByte", "WriteRune":
+					if k, ok := constInt(arg); ok {
+						sb.WriteRune(rune(k))
+					} else {
+						sb.WriteString("%?")
+					}
+				}
+			}
+			if line := sb.String(); strings.HasPrefix(line, "Unit") {
+				nUnit++
+				c.Check(line == "Unit %OrigUnit %Key=%Value\n", "C01/R5", fnName(fn)+":unit-line", p.pos(first.Pos()),
+					"Unit <OrigUnit> <Key>=<Value>", fmt.Sprintf("unit metadata written as %q; the reader expects 'Unit <unit as written> <key>=<value>'", line))
+			}
+		}
+	}
 	c.Floor("C01/R4", "format verbs in Writer methods", n, 6)
 	c.Floor("C01/R5", "unit metadata print sites", nUnit, 1)
 }
